@@ -291,7 +291,7 @@ def fast_range2parts(**kw):
                  fast_range2parts_v4, fast_range2parts_v5):
         try:
             parts = func(**inputs)
-            parts.update(kw)
+            parts.update({k: v for k, v in kw.items() if k not in parts})
             return parts
         except TypeError:
             pass
@@ -317,6 +317,7 @@ def fast_range2parts_v2(r1, c1, r2, c2, sheet_id):
 
 
 def fast_range2parts_v3(r1, n1, sheet_id, anchor=''):
+    n1 = int(n1)
     c1 = _index2col(n1)
     ref = '{}{}{}'.format(*_build_cel(c1, r1), anchor).upper()
     return {
@@ -326,6 +327,7 @@ def fast_range2parts_v3(r1, n1, sheet_id, anchor=''):
 
 
 def fast_range2parts_v4(r1, n1, r2, n2, sheet_id):
+    n1, n2 = int(n1), int(n2)
     c1, c2 = _index2col(n1), _index2col(n2)
     ref = _build_ref(c1, r1, c2, r2).upper()
     return {
